@@ -1274,9 +1274,25 @@ def r5(ctx):
                f"`{norm(s.node)}`: arrival order / one entry per call is not preserved")
         ctx.ob("C18.R5", f"add_log_entry: {name} append is skipped while paused", paused_false(s.node), ctx.w(f, s.node),
                "entries handed to a paused logger (e.g. through WrappingMessageLogger) are retained and shown")
+    # locals holding the verdict of self.filter.match(entry)
+    verdicts = {x.path for x in sts if x.kind == "assign" and isinstance(x.target, ast.Name) and x.value is not None and
+                _is_filter_match(x.value, entry)}
+    verdicts = {v for v in verdicts if sum(1 for x in sts if x.path == v) == 1}
+
+    def match_fact(e, pol):
+        return pol and (_is_filter_match(e, entry) or (isinstance(e, ast.Name) and e.id in verdicts))
+    # the entry is retained before the filter (which may raise) is evaluated
+    mcalls = [c for c in calls(f.node) if _is_filter_match(c, entry)]
+    rn_ = {n for r in raw for n in cfg.stmt_nodes_containing(r.node)}
+    reach_ = cfg.reachable([cfg.entry], avoid=lambda n: n in rn_)
+    for c in mcalls:
+        mn = cfg.stmt_nodes_containing(c)
+        ctx.ob("C18.R5", "add_log_entry: the entry is retained before the filter is evaluated",
+               bool(mn) and bool(rn_) and not any(n in reach_ for n in mn), ctx.w(f, c),
+               "if evaluating the filter raises, the entry is never retained and cannot show up after re-filtering")
     for s in view:
         ctx.ob("C18.R5", "add_log_entry: view append is control-dependent on self.filter.match(entry)",
-               any(pol and _is_filter_match(e, entry) for e, pol in facts(s.node, f.node)), ctx.w(f, s.node),
+               any(match_fact(e, pol) for e, pol in facts(s.node, f.node)), ctx.w(f, s.node),
                "an entry is shown without having matched the current filter")
         # raw append on every path to the view append
         vn = cfg.stmt_nodes_containing(s.node)
@@ -1583,14 +1599,20 @@ def r6(ctx):
                     n.slice.id == key_name:
                 return True
         return False
-    w_loops = [l for l in walk(mt.node) if isinstance(l, ast.For) and isinstance(l.target, ast.Name) and
+    def _key_target(t):
+        if isinstance(t, ast.Name):
+            return t.id
+        if isinstance(t, ast.Tuple) and t.elts and isinstance(t.elts[0], ast.Name):
+            return t.elts[0].id
+        return None
+    w_loops = [l for l in walk(mt.node) if isinstance(l, ast.For) and _key_target(l.target) and
                (ap(l.iter) or "").replace(".keys()", "").replace(".items()", "") == "self.blocks"]
     r_loops = [l for l in walk(mf.node) if isinstance(l, ast.For) and isinstance(l.target, ast.Tuple) and len(l.target.elts) == 2 and
                all(isinstance(t, ast.Name) for t in l.target.elts) and isinstance(l.iter, ast.Call) and call_attr(l.iter) == "items" and
                "body" in list(_const_keys_read(l.iter, dv))]
     ctx.require(len(w_loops) == 1 and len(r_loops) == 1,
                 f"Message.to_dict/from_dict: block loops not found (writer {len(w_loops)}, reader {len(r_loops)})")
-    w_emits = per_key_effect(mt, w_loops[0], w_loops[0].target.id, None)
+    w_emits = per_key_effect(mt, w_loops[0], _key_target(w_loops[0].target), None)
     r_key, r_list = r_loops[0].target.elts[0].id, r_loops[0].target.elts[1].id
     r_creates = per_key_effect(mf, r_loops[0], r_key, r_list)
     ctx.ob("C18.R6", "Message.from_dict recreates every block list to_dict emits, also an empty one",
@@ -1681,6 +1703,43 @@ def r7(ctx):
     ctx.floor("C18.R7", "recorded hits", n_hits, 2)
 
 
+def r8(ctx):
+    repo = ctx.repo
+    ctx.rule("C18.R8", "freeze keeps the message recoverable: the live message is released (self._message = None) only "
+                       "on paths where the frozen copy was stored, also when pickling raises")
+    f = inline_self_calls(repo, repo.fn("LLUDPMessageLogEntry.freeze"))
+    cfg = CFG(f.node)
+    sts = stores(f.node)
+    frozen = [s_ for s_ in sts if s_.path == "self._frozen_message" and s_.kind == "assign"]
+    released = [s_ for s_ in sts if s_.path == "self._message" and s_.kind in ("assign", "del") and
+                (s_.value is None or (isinstance(s_.value, ast.Constant) and s_.value.value is None))]
+    ctx.require(bool(frozen) and bool(released), "LLUDPMessageLogEntry.freeze: frozen-copy store / live-message release not found")
+    dn = {n for s_ in frozen for n in (cfg.nodes_for(s_.node) or cfg.stmt_nodes_containing(s_.node))}
+    rn = {n for s_ in released for n in (cfg.nodes_for(s_.node) or cfg.stmt_nodes_containing(s_.node))}
+    # reachability in which the frozen-copy store never completes normally (only its exceptional edges are followed)
+    seen, stack = set(), [cfg.entry]
+    while stack:
+        n = stack.pop()
+        if n in seen:
+            continue
+        seen.add(n)
+        stack.extend(n.exc_succs)
+        if n not in dn:
+            stack.extend(n.succs)
+    bad = sorted((x for x in rn if x in seen), key=lambda x: x.id)
+    ctx.ob("C18.R8", "freeze: self._message is released only after self._frozen_message was stored", not bad, f.where,
+           "the live message is dropped on a path where storing the pickled copy did not complete (pickling raised): "
+           "the entry then has neither a fresh nor a frozen message and every later access raises")
+    # thaw side reads what freeze wrote
+    mg = repo.fn("LLUDPMessageLogEntry.message")
+    loads = [c for c in calls(mg.node) if call_attr(c) == "loads" and c.args and ap(c.args[0]) == "self._frozen_message"]
+    dumps = [c for c in calls(f.node) if call_attr(c) == "dumps"]
+    if dumps or loads:
+        ctx.ob("C18.R8", "freeze / message use the same pickling module both ways",
+               bool(dumps) and bool(loads) and {ap(c.func).rsplit(".", 1)[0] for c in dumps} == {ap(c.func).rsplit(".", 1)[0] for c in loads},
+               mg.where)
+
+
 def run(ctx):
     rules = grammar_rules(ctx)
     ctx.floor("C18", "grammar rules reachable from the start rule", len(rules), 10)
@@ -1691,6 +1750,7 @@ def run(ctx):
     r5(ctx)
     r6(ctx)
     r7(ctx)
+    r8(ctx)
     ctx.assume("arpeggio semantics: python list = ordered choice committing to the first matching alternative, "
                "string alternatives match by prefix; regex alternatives are not compared")
     ctx.assume("child filter nodes return MatchResult(False, []) | MatchResult(True, fields) (fields possibly empty)")
